@@ -373,6 +373,10 @@ func parseAux(aux []byte) ([]sam.Aux, error) {
 				if i+8 > len(aux) {
 					return nil, errors.New("bam: invalid array aux data: short field")
 				}
+				if jumps[aux[i+3]] <= 0 {
+					// Only the fixed width types can be array elements.
+					return nil, fmt.Errorf("bam: invalid array element type: %q", aux[i+3])
+				}
 				length := binary.LittleEndian.Uint32(aux[i+4 : i+8])
 				j = int(length)*jumps[aux[i+3]] + int(unsafe.Sizeof(length)) + 4
 				if j < 0 || i+j < 0 || i+j > len(aux) {
